@@ -28,7 +28,7 @@ var Check = &ev.Check{
 	ID:    "C12",
 	Level: "exploration",
 	Rule: "server family: internal/envelope.Server over internal/multiplex handlers (Svc, Svc:ns, Outer->Inner, empty) for 13 names with 0..3 colons x 2 framings x 5 seqids x 3 bodies, dispatch by the first colon, reply type/name/seqid/body; chains of <=2 multiplex clients over the envelope client x 5 method names against that server. structured family: name in {a, Svc:method, 255*x, non-UTF8, NUL-containing, 65536*n; thorough +65535 and 65793 bytes} x envelope type 0..127 (all) x seqid in {0,1,-1,min,max} x body in {empty, one i32, nested struct+list} " +
-		"x framing {strict, legacy, bare} x expected type {Call, OneWay} x API {DecodeRequest, ReadRequest} x reader {non-seekable, seekable} x read segmentations (all <=2-cut chunkings for messages <=24 bytes; " +
+		"x framing {strict, legacy, bare} x expected type {Call, OneWay} x API {DecodeRequest, ReadRequest} x reader {non-seekable, seekable, pipe-like: has a Seek method that always fails, as an *os.File on a pipe does} x read segmentations (all <=2-cut chunkings for messages <=24 bytes; " +
 		"whole, all-1-byte, first-read-1-byte, zero-length reads and every single cut beyond); plus envelope encode/decode round trips through the value and stream APIs against ref/tbin bytes. " +
 		"classification family: every byte string of length<=5 (quick) / <=6 (thorough) over {00,01,02,04,08,0b,0c,0f,7f,80,81,ff}, and every strict / legacy message with the EMPTY name x type 0..127 x 5 seqids x 3 bodies, under all <=2-cut chunkings. sequence family: every ordered pair (a,b) and triple (a,b,a) of 16 requests on ONE server, all replies held to the end (unchanged, each echoing its own request). " +
 		"A case is one (message, expected type); cases are distinct by construction; every case is non-trivial (it exercises framing detection).",
@@ -148,7 +148,7 @@ func (enveloper) MethodName() string              { return "ignored" }
 func (enveloper) EnvelopeType() wire.EnvelopeType { return wire.Reply }
 func (enveloper) Encode(sw stream.Writer) error   { return wirex.StreamWrite(sw, replyBody) }
 
-func readRequest(msg []byte, et int8, ck chunk.Chunking, seekable bool) (res reqResult) {
+func readRequest(msg []byte, et int8, ck chunk.Chunking, seekable int) (res reqResult) {
 	res = readRequestWith(msg, et, ck, seekable, false)
 	// the same request read by a body reader that skips every field (what
 	// generated code does with fields it does not know): must agree on
@@ -168,7 +168,8 @@ func readRequest(msg []byte, et int8, ck chunk.Chunking, seekable bool) (res req
 	return res
 }
 
-func readRequestWith(msg []byte, et int8, ck chunk.Chunking, seekable, skip bool) (res reqResult) {
+// seekable: 0 = plain io.Reader, 1 = io.Seeker that works, 2 = io.Seeker whose Seek fails (a pipe)
+func readRequestWith(msg []byte, et int8, ck chunk.Chunking, seekable int, skip bool) (res reqResult) {
 	defer func() {
 		if p := recover(); p != nil {
 			res = reqResult{panic: fmt.Sprint(p)}
@@ -178,8 +179,10 @@ func readRequestWith(msg []byte, et int8, ck chunk.Chunking, seekable, skip bool
 	br := bodyReader{skip: skip}
 	var rw stream.ResponseWriter
 	var err error
-	if seekable {
+	if seekable == 1 {
 		rw, err = binary.Default.ReadRequest(context.Background(), wire.EnvelopeType(et), chunk.Seekable{Reader: cr}, &br)
+	} else if seekable == 2 {
+		rw, err = binary.Default.ReadRequest(context.Background(), wire.EnvelopeType(et), chunk.PipeLike{Reader: cr}, &br)
 	} else {
 		rw, err = binary.Default.ReadRequest(context.Background(), wire.EnvelopeType(et), cr, &br)
 	}
@@ -274,9 +277,10 @@ func (r *runner) structured(name []byte, typ int8, seq int32, body tbin.Value, f
 	}
 	judge("DecodeRequest", decodeRequest(msg, et))
 	for _, ck := range chunkingsFor(len(msg)) {
-		judge("ReadRequest["+chunkClass(ck)+"]", readRequest(msg, et, ck, false))
-		judge("ReadRequest[seekable,"+chunkClass(ck)+"]", readRequest(msg, et, ck, true))
-		w.Count("readrequest_runs", 2)
+		judge("ReadRequest["+chunkClass(ck)+"]", readRequest(msg, et, ck, 0))
+		judge("ReadRequest[seekable,"+chunkClass(ck)+"]", readRequest(msg, et, ck, 1))
+		judge("ReadRequest[pipe-like,"+chunkClass(ck)+"]", readRequest(msg, et, ck, 2))
+		w.Count("readrequest_runs", 3)
 	}
 }
 
@@ -366,9 +370,9 @@ func (r *runner) classify(msg []byte, et int8) {
 	}
 	acc := 0
 	for _, ck := range chunk.All(len(msg), true, true) {
-		for _, seek := range []bool{false, true} {
+		for _, seek := range []int{0, 1, 2} {
 			rr := readRequest(msg, et, ck, seek)
-			api := "ReadRequest[" + chunkClass(ck) + "]"
+			api := "ReadRequest[" + []string{"", "seekable,", "pipe-like,"}[seek] + chunkClass(ck) + "]"
 			if rr.panic != "" {
 				r.viol("panic:ReadRequest", msg, et, desc, rr.panic)
 				continue
